@@ -97,12 +97,12 @@ int main(int argc, char **argv) {
 		for (d = -1; d <= 1; d++) if (hn + d <= 0x10000 && raw_case(ht, f & 1, f & 2, hn + d)) RP_FAIL("raw TLV codec disagrees with the TLV format");
 	}
 	/* content = 4 + n1 + 4 + n2 for n1 > 0xff */
-	for (d = -3; d <= 3; d++) {
+	for (d = -3; d <= (rp_ll("skip_big", 0) ? -1 : 3); d++) {   /* skip_big=1: only contents <= 0xffff, then go on */
 		size_t n1 = 0x8000, n2 = (size_t)(0x10000 - 8 - 0x8000 + d);
 		if (nested_case(0x1, n1, n2)) RP_FAIL("nested TLV whose content does not fit the 16-bit length field is not refused / does not round-trip");
 		if (nested_case(0x801, n1, n2)) RP_FAIL("nested TLV whose content does not fit the 16-bit length field is not refused / does not round-trip");
 	}
-	if (nested_case(0x1, 0xffff, 0xffff)) RP_FAIL("nested TLV whose content does not fit the 16-bit length field is not refused");
+	if (!rp_ll("skip_big", 0) && nested_case(0x1, 0xffff, 0xffff)) RP_FAIL("nested TLV whose content does not fit the 16-bit length field is not refused");
 	for (d = 0; d < 40; d++) if (nested_case(0x1, (size_t)d * 13, (size_t)(250 - d * 3))) RP_FAIL("nested TLV does not round-trip");
 	printf("no disagreement in the neighbourhood\n");
 	return 0;
